@@ -1047,12 +1047,45 @@ func c20SDK(c *Ctx) {
 		})
 		return n
 	}
+	// does the shared environment resolver itself refuse values below one? (its store of the parsed value is reached only across
+	// a comparison that excludes them)
+	getenvRejects := false
+	if ge := lx.Func("getenv"); ge != nil {
+		fVal := lookupField(lx.Pkg, "setting", "Value")
+		for _, f := range lx.All {
+			if f.Lit == nil || lx.Outer(f) != ge {
+				continue
+			}
+			g := lx.FG(f)
+			stores := g.Match(func(n ast.Node) bool {
+				return assignRHS(n, func(e ast.Expr) bool { return isField(linfo, e, fVal) }) != nil
+			})
+			for _, st := range stores {
+				if d, _ := g.DominatedByEdges(st, func(e *GEdge) bool {
+					return edgeImplies(e, func(cnd ast.Expr, pol int) bool {
+						l, op, r, ok := cmpNorm(cnd, pol)
+						k, isC := constInt(linfo, r)
+						if !ok || !isC {
+							return false
+						}
+						if _, isV := objOf(linfo, l).(*types.Var); !isV {
+							return false
+						}
+						return (op == token.GEQ && k >= 1) || (op == token.GTR && k >= 0)
+					})
+				}); d {
+					getenvRejects = true
+				}
+			}
+		}
+	}
 	if fn := c.Fn(lx, "R4", "newBatchConfig"); fn != nil {
 		n := settingChains(fn, func(fld string, recv ast.Expr, names []string, pos token.Pos) {
-			// first resolver sanitises the option; every getenv is followed by a clearLessThanOne; fallback last
+			// first resolver sanitises the option; every getenv is followed by a clearLessThanOne (or refuses values below one
+			// itself); fallback last
 			good := len(names) >= 2 && names[0] == "clearLessThanOne" && names[len(names)-1] == "fallback"
 			for i, nm := range names {
-				if nm == "getenv" && (i+1 >= len(names) || names[i+1] != "clearLessThanOne") {
+				if nm == "getenv" && !getenvRejects && (i+1 >= len(names) || names[i+1] != "clearLessThanOne") {
 					good = false
 				}
 			}
@@ -1077,6 +1110,11 @@ func c20SDK(c *Ctx) {
 				default:
 					good = false
 				}
+			}
+			if good && envs == 1 && getenvRejects {
+				c.Violation("R4", "sdk/log|newProviderConfig|"+fld+" resolves option → environment → default, values kept as given", at(lx.M, pos),
+					"the record limit "+fld+" takes its environment value through getenv, which now refuses integers below one: OTEL_LOGRECORD_ATTRIBUTE_* = 0 or a negative value (documented: truncate to nothing / no limit) is ignored in favour of the default, unlike the same value given through the option")
+				return
 			}
 			c.Check(good && envs == 1, "R4", "sdk/log|newProviderConfig|"+fld+" resolves option → environment → default, values kept as given", at(lx.M, pos), strings.Join(names, " → "),
 				"the record limit "+fld+" is resolved through "+strings.Join(names, " → ")+": a zero or negative limit (documented: no limit / truncate to nothing) from WithAttribute…Limit or OTEL_LOGRECORD_ATTRIBUTE_* is replaced instead of honoured, and a cleared option lets the environment override it")
